@@ -57,17 +57,6 @@ def check(P, R):
             elif isinstance(st, ast.AugAssign):
                 targets = [st.target]
             for t in targets:
-                # re-pointing a header store at another dictionary (aliasing) is a write of the whole store
-                if isinstance(t, ast.Attribute) and (t.attr == '_headers' or (t.attr == 'dict' and (dotted(t.value) or '').endswith('headers'))):
-                    nw += 1
-                    fresh = isinstance(st, ast.Assign) and (isinstance(st.value, ast.Dict) and not st.value.keys or
-                                                            (isinstance(st.value, ast.Attribute) and src(st.value) == 'self._headers'
-                                                             and f.fq == f'{RS}:BaseResponse.__init__'))
-                    ok = (f.owner_cls is hd) or (f.fq == f'{RS}:BaseResponse.__init__' and fresh)
-                    R.ob('C14.a', f, st, ok, detail='' if ok else
-                         'a header store is re-pointed at an existing dictionary: later header writes land in the other object '
-                         '(e.g. a shared error response) and its entries were never guarded for this response',
-                         why='only a fresh dict per response keeps every entry behind the guard')
                 if is_raw_store_target(t):
                     nw += 1
                     in_hd = f.owner_cls is hd or (f.parent is None and f.cls is None and f.module is hd.module and '<lambda' in f.qual)
